@@ -383,6 +383,19 @@ def render_decl(k, line, rng=None, name=None):
             else:
                 src.append("func %s(%s) (%s) {\n%s\n}" % (pid, params, ", ".join(rets), "\n".join(body)))
                 e = "kessoku.Provide(%s)" % pid
+                # other spellings of the same provider: a function literal, a method value, an instance of a generic function
+                form = rng.choice(["named"] * 7 + ["literal", "method", "generic"]) if rng is not None else "named"
+                call = "%s(%s)" % (pid, ", ".join("a%d" % j for j in range(len(p['req']))))
+                if form == "literal":
+                    e = "kessoku.Provide(func(%s) (%s) { return %s })" % (params, ", ".join(rets), call)
+                elif form == "method":
+                    src.append("type %sRecv struct{}" % pid)
+                    src.append("func (%sRecv) Make(%s) (%s) { return %s }" % (pid, params, ", ".join(rets), call))
+                    src.append("var %sObj %sRecv" % (pid[0].lower() + pid[1:], pid))
+                    e = "kessoku.Provide(%sObj.Make)" % (pid[0].lower() + pid[1:])
+                elif form == "generic":
+                    src.append("func %sG[X any](%s) (%s) { return %s }" % (pid, params, ", ".join(rets), call))
+                    e = "kessoku.Provide(%sG[int])" % pid
             binds = [extra for g in p['groups'] for extra in g[1:]]
             # both nestings are legal: Async(Bind[I](Provide(f))) and Bind[I](Async(Provide(f)))
             inner_async = bool(p['a'] and binds and rng is not None and rng.chance(0.5))
